@@ -3,7 +3,8 @@ import RedoModel.Paths
 Model of the structured log records and of log replay:
 
 * `logs::Meta::parse`, `impl Display for Meta`, `Meta::parse_done_text`, `logs::is_valid_log_line` (src/logs.rs)
-* `clean_line` and the replay (non-`--follow`) path of `LogState::catlog` (src/bin/redo/log.rs)
+* `clean_line` and the replay (non-`--follow`) path of `LogState::catlog` (src/bin/redo/log.rs), including the
+  splitting of a record glued to unterminated text (`unglue`)
 
 Strings are `List Char`.  A pid is kept as its canonical decimal token, a timestamp as its
 canonical `digits.dddd` token (floats are never compared): `canonI32` / `canonTs` say which
@@ -289,6 +290,20 @@ def lines (recurse : List Char → St → Except CErr (St × Nat)) (optU optR : 
       else
         lines recurse optU optR t ls (emit st t (.raw (cleanLine l))) intr (w + 1)
 
+/-- A record glued to unterminated text (`checking y... @@REDO:do:…@@ y`) is handled as two lines: the text, then the
+record.  Only the first `@@REDO:` of the line counts, and only when what follows it parses as a record. -/
+def unglue1 (l : List Char) : List (List Char) :=
+  match findSub pre l with
+  | some (b, a) =>
+    if b.isEmpty then [l]
+    else match parse (pre ++ a) with
+      | .ok _ => [b, pre ++ a]
+      | .error _ => [l]
+  | none => [l]
+
+/-- The lines of a log as the per-line loop of `catlog` sees them. -/
+def unglue (ls : List (List Char)) : List (List Char) := ls.flatMap unglue1
+
 /-- `LogState::catlog` for one target. -/
 def catlog (F : Forest) (optU optR : Bool) : Nat → List Char → St → Except CErr (St × Nat)
   | 0, _, _ => .error .outOfFuel
@@ -302,7 +317,7 @@ def catlog (F : Forest) (optU optR : Bool) : Nat → List Char → St → Except
       match lookup F (normpath t) with
       | none => .error .unknownTarget
       | some none => .ok (st, 0)
-      | some (some ls) => lines (catlog F optU optR fuel) optU optR t ls st 0 0
+      | some (some ls) => lines (catlog F optU optR fuel) optU optR t (unglue ls) st 0 0
 
 /-- The top-level loop of `redo-log` over its command-line targets: each is announced as `rel(topdir, ".", t)`
 (its cleaned name) and passed to `catlog` as written (not joined with anything). -/
